@@ -136,6 +136,27 @@ OverloadP(t, ctx, pty, fn) ==
     [] t.k = "cond" -> NCond(OverloadP(t.c, ctx, pty, fn), OverloadP(t.a, ctx, pty, fn), OverloadP(t.b, ctx, pty, fn))
     [] t.k = "arr"  -> NArr(OverloadListP(t.xs, ctx, pty, fn))
     [] t.k = "map"  -> NMap(t.ks, OverloadListP(t.vs, ctx, pty, fn))
+(* a table with two candidates, in mapping order: Add(int, int), then AddAny(interface{}, interface{})    *)
+(* whose parameters every operand type implements: the first candidate that fits is chosen               *)
+RECURSIVE OverloadT(_, _)
+OverloadListT(ts, ctx) == [i \in 1..Len(ts) |-> OverloadT(ts[i], ctx)]
+OverloadT(t, ctx) ==
+  CASE t.k \in {"nil", "bool", "int", "float", "str", "id", "ptr", "none", "const"} -> t
+    [] t.k = "un"   -> NUn(t.op, OverloadT(t.x, ctx))
+    [] t.k = "bin"  -> IF t.op = "+"
+                       THEN NCall((IF TypeOf(t.l, ctx) = "int" /\ TypeOf(t.r, ctx) = "int" THEN "Add" ELSE "AddAny"),
+                                  <<OverloadT(t.l, ctx), OverloadT(t.r, ctx)>>)
+                       ELSE NBin(t.op, OverloadT(t.l, ctx), OverloadT(t.r, ctx))
+    [] t.k = "prop" -> NProp(OverloadT(t.x, ctx), t.name, t.ns)
+    [] t.k = "idx"  -> NIdx(OverloadT(t.x, ctx), OverloadT(t.i, ctx))
+    [] t.k = "slice" -> NSlice(OverloadT(t.x, ctx), OverloadT(t.from, ctx), OverloadT(t.to, ctx))
+    [] t.k = "meth" -> NMeth(OverloadT(t.x, ctx), t.name, OverloadListT(t.args, ctx), t.ns)
+    [] t.k = "call" -> NCall(t.name, OverloadListT(t.args, ctx))
+    [] t.k = "len"  -> NLen(OverloadT(t.x, ctx))
+    [] t.k = "bi"   -> NBi(t.name, OverloadT(t.x, ctx), OverloadT(t.body, TypeOf(t.x, ctx)))
+    [] t.k = "cond" -> NCond(OverloadT(t.c, ctx), OverloadT(t.a, ctx), OverloadT(t.b, ctx))
+    [] t.k = "arr"  -> NArr(OverloadListT(t.xs, ctx))
+    [] t.k = "map"  -> NMap(t.ks, OverloadListT(t.vs, ctx))
 Overload(t, ctx)  == OverloadP(t, ctx, "int", "Add")
 OverloadF(t, ctx) == OverloadP(t, ctx, "float64", "AddF")
 
